@@ -28,6 +28,25 @@ func seqPool() []string {
 		"115792089237316195423570985008687907853269984665640564039457.584007913129639935", "", "bad"}
 }
 
+// interfere calls every other exported conversion of the file (their results belong to the
+// caller, who changes them): whatever they leave behind must not influence the functions
+// under test.
+func interfere() {
+	for _, f := range []float64{0, 1.5, 0.1, 123456789.987654321, -2.75} {
+		if r := utility.Float64ToBigInt(f); r != nil {
+			r.Lsh(r, 7)
+		}
+	}
+	for _, u := range []uint64{0, 1, 1 << 63} {
+		if r := utility.Uint64ToBigInt(u); r != nil {
+			r.Lsh(r, 7)
+		}
+	}
+	utility.BigIntBase10toN(big.NewInt(123456789), 16)
+	utility.ByteToUInt64(utility.UInt64ToByte(77))
+	utility.BigIntBytesToStr(big.NewInt(1500000000000000000).Bytes())
+}
+
 func seqOne(c *fw.Ctx, a, b string, dec int64) {
 	c.Eval(1)
 	cs := seqCase{Kind: "seq", A: a, B: b, Dec: dec}
@@ -46,6 +65,7 @@ func seqOne(c *fw.Ctx, a, b string, dec int64) {
 		if e1 == nil && r1.String() != s1 {
 			c.Violation("C18:seq:result-aliased:StrToBigInt", "sequence", fmt.Sprintf("StrToBigInt(%q) returned %s; after StrToBigInt(%q) and a change to THAT result the first result reads %s", a, s1, b, r1), cs)
 		}
+		interfere()
 		r3, e3 := utility.StrToBigInt(a)
 		if (e1 == nil) != (e3 == nil) || (e1 == nil && r3.String() != s1) {
 			c.Violation("C18:seq:history-dependent:StrToBigInt", "sequence", fmt.Sprintf("StrToBigInt(%q) = %s (err %v) on first use but %v (err %v) after StrToBigInt(%q) whose result the caller changed", a, s1, e1, r3, e3, b), cs)
@@ -71,6 +91,7 @@ func seqOne(c *fw.Ctx, a, b string, dec int64) {
 		if dn2 != nil {
 			dn2.Add(dn2, huge)
 		}
+		interfere()
 		if n1.String() != keep1 || n2.String() != keep2 {
 			c.Violation("C18:seq:argument-modified", "sequence", fmt.Sprintf("arguments %s / %s read %s / %s after BigIntToStr / FormatDecimalFor*(.., %d)", keep1, keep2, n1, n2, dec), cs)
 		}
